@@ -218,7 +218,7 @@ SRC_TIE_TEXT = {
     'Meta': 'check_int and the encode/decode/check methods of the numeric meta specs of meta.py',
     'Vlq': 'encode_variable_int (meta.py) and read_variable_int (midifiles.py)',
     'Tracks': '_to_abstime, _to_reltime, fix_end_of_track and merge_tracks of tracks.py',
-    'Reader': 'read_track, read_message, read_sysex, read_meta_message, read_bytes, read_chunk_header and read_variable_int of midifiles.py (the message constructors they call are a parameter, instantiated with the model of those constructors)',
+    'Reader': 'MidiFile._load, read_file_header, read_track, read_message, read_sysex, read_meta_message, read_bytes, read_chunk_header and read_variable_int of midifiles.py (the message constructors they call are a parameter, instantiated with the model of those constructors)',
     'Writer': 'MidiFile.save/_save, write_track and write_chunk of midifiles.py (type-0 rule, header, both loops, running status, chunk header)',
 }
 SRC_TIE = {
